@@ -231,7 +231,7 @@ func (c *Collection) Delete(id string, opts ...WriteOption) (proto.Message, erro
 		c.pub.wait(c.pub.ticket())
 		c.bus.Send(context.TODO(), &CollectionChange{
 			Id:         id,
-			ChangeTime: c.clock.Now(),
+			ChangeTime: args.updateTime(c.clock),
 			ChangeType: types.ChangeType_REMOVE,
 			OldValue:   oldVal.body,
 		})
